@@ -26,6 +26,7 @@ type c15P struct {
 	Cand   string `json:"cand"`    // canonical | forged-rightlink | forged-wronglink | signed-relink
 	FailAt int    `json:"fail_at"` // index of the getter.GetByHeight call that fails (-1 none)
 	Via    string `json:"via"`     // "" = gossip delivery | "head" = learned through Syncer.Head() from the trusted getter
+	FailKind string `json:"fail_kind,omitempty"` // "" generic error | notfound (header.ErrNotFound once) | notfound-from (ErrNotFound from that call on)
 	Soft   bool   `json:"soft"`    // the header type reports its own rejections as SoftFailure (also adjacent ones)
 }
 
@@ -54,6 +55,19 @@ func TestC15(t *testing.T) {
 						mon.Emit(r, "bifurcate", c15P{S: 10, D: d, R: R, Cand: cand, FailAt: -1, Via: via, Soft: soft}, "bifurcate")
 					}
 				}
+			}
+		}
+	}
+	for _, d := range []uint64{2, 3, 5, 9, 17, 40} {
+		for _, R := range []uint64{1, 2, 4} {
+			if R >= d {
+				continue
+			}
+			for _, fk := range []string{"notfound", "notfound-from"} {
+				for k := 0; k < 4; k++ {
+					mon.Emit(r, "bifurcate", c15P{S: 10, D: d, R: R, Cand: "canonical", FailAt: k, FailKind: fk}, "bifurcate")
+				}
+				mon.Emit(r, "bifurcate", c15P{S: 10, D: d, R: R, Cand: vh.VForgedRightLink, FailAt: 1, FailKind: fk}, "bifurcate")
 			}
 		}
 	}
@@ -117,8 +131,11 @@ func c15Run(c *mon.Case, p c15P) {
 		bound := int(p.D)*(bits.Len64(p.D)+2) + 2
 		runaway := false
 		w.g.ByHeightFn = func(call int, height uint64) (H, error, bool) {
-			if call == p.FailAt {
+			if call == p.FailAt || (p.FailKind == "notfound-from" && p.FailAt >= 0 && call > p.FailAt && call <= bound+8) {
 				failed = true
+				if p.FailKind != "" {
+					return nil, fmt.Errorf("lagging peer: %w", header.ErrNotFound), true
+				}
 				return nil, errGetterDown, true
 			}
 			if call > bound+8 {
@@ -205,8 +222,11 @@ func c15Run(c *mon.Case, p c15P) {
 		default:
 			steps = "9+"
 		}
-		c.Class("d=%s R=%s cand=%s getterfail=%v via=%s soft=%v => %s steps=%s", bucket(p.D), bucket(p.R), p.Cand, failed, p.Via, p.Soft, outcome, steps)
+		c.Class("d=%s R=%s cand=%s getterfail=%v%s via=%s soft=%v => %s steps=%s", bucket(p.D), bucket(p.R), p.Cand, failed, p.FailKind, p.Via, p.Soft, outcome, steps)
 		shape := fmt.Sprintf("cand=%s/getterfail=%v", p.Cand, failed)
+		if p.FailKind != "" {
+			shape += "/" + p.FailKind
+		}
 		if p.Via != "" || p.Soft {
 			shape += fmt.Sprintf("/via=%s/soft=%v", p.Via, p.Soft)
 		}
